@@ -78,7 +78,7 @@ func outOrErr(b []byte, err error) []byte {
 }
 
 func C12(c *run.Ctx) int {
-	n := c.N(150, 1200)
+	n := c.N(150, 600)
 	var srcs []string
 	for i := 0; i < n; i++ {
 		cfg := wgen.Config{Off: wgen.SafeOff()}
